@@ -17,7 +17,8 @@ N::N(ParticleIndex Nmodes):Operator(),Nmodes(Nmodes)
 std::map<FockState,MelemType> N::actRight(const FockState &ket) const
 {
     std::map<FockState,MelemType> output;
-    output[ket]=this->getMatrixElement(ket);
+    MelemType value=this->getMatrixElement(ket);
+    if (!(std::abs(value)<std::numeric_limits<RealType>::epsilon())) output[ket]=value; // like Operator::actRight, a vanishing amplitude is not stored
     return output;
 }
 
@@ -79,7 +80,8 @@ MelemType Sz::getMatrixElement(const FockState &bra, const FockState &ket) const
 std::map<FockState,MelemType> Sz::actRight(const FockState &ket) const
 {
     std::map<FockState,MelemType> output;
-    output[ket]=this->getMatrixElement(ket);
+    MelemType value=this->getMatrixElement(ket);
+    if (!(std::abs(value)<std::numeric_limits<RealType>::epsilon())) output[ket]=value; // like Operator::actRight, a vanishing amplitude is not stored
     return output;
 }
 
